@@ -207,6 +207,30 @@ def job_tables(job):
                 if alg.cayley[eI, eJ] != exp:
                     out['failures'].append({'config': cfg, 'what': 'cayley', 'I': eI, 'J': eJ, 'got': alg.cayley[eI, eJ], 'expected': exp})
                     break
+        # a blade named e_ij..k (any spelling, also one the basis does not list) is the ordered product e_i e_j .. e_k
+        if alg.d <= 4:
+            nb = 0
+            for name in list(alg.canon2bin):
+                gens = name[1:]
+                if not 2 <= len(gens) <= 4:
+                    continue
+                for perm in itertools.permutations(gens):
+                    sp = 'e' + ''.join(perm)
+                    out['evaluations'] += 1
+                    try:
+                        named = todict(alg.blades[sp])
+                        prod = alg.blades['e' + perm[0]]
+                        for c in perm[1:]:
+                            prod = prod * alg.blades['e' + c]
+                        want = {k: v for k, v in todict(prod).items() if v != 0}
+                        named = {k: v for k, v in named.items() if v != 0}
+                    except Exception as e:
+                        named, want = repr(e)[:80], None
+                    if named != want:
+                        nb += 1
+                        if nb <= 3:
+                            out['failures'].append({'config': cfg, 'what': 'a blade named e_ij..k is not the ordered product e_i e_j .. e_k',
+                                                    'spelling': sp, 'got': str(named), 'expected': str(want)})
         if len(out['samples']) < 3:
             out['samples'].append({'config': cfg, 'pairs_checked': 'all' if alg.d <= 6 else 'sampled', 'd': alg.d})
     return out
